@@ -10,6 +10,7 @@ import (
 	goerrors "errors"
 	"fmt"
 	"math/rand"
+	"os"
 	"reflect"
 	"sort"
 	"strings"
@@ -20,6 +21,7 @@ import (
 	"github.com/cockroachdb/errors/errorspb"
 	"github.com/cockroachdb/errors/extgrpc"
 	"github.com/cockroachdb/errors/exthttp"
+	"github.com/cockroachdb/errors/oserror"
 	"github.com/cockroachdb/redact"
 	"github.com/gogo/protobuf/proto"
 	"github.com/gogo/protobuf/types"
@@ -343,6 +345,53 @@ func Observers(e error) []string {
 		}
 	})
 	try("mark", &out, func() { _ = errors.Is(errors.Mark(goerrors.New("y"), e), e) })
+	// OS-level predicates and the methods they rest on
+	try("os", &out, func() {
+		_ = oserror.IsPermission(e)
+		_ = oserror.IsExist(e)
+		_ = oserror.IsNotExist(e)
+		_ = oserror.IsTimeout(e)
+		_ = os.IsTimeout(e)
+		var t interface{ Timeout() bool }
+		if errors.As(e, &t) {
+			_ = t.Timeout()
+		}
+		var tmp interface{ Temporary() bool }
+		if errors.As(e, &tmp) {
+			_ = tmp.Temporary()
+		}
+	})
+	// the standard library's view
+	try("std", &out, func() {
+		_ = goerrors.Is(e, e)
+		_ = goerrors.Unwrap(e)
+		var t interface{ Timeout() bool }
+		_ = goerrors.As(e, &t)
+	})
+	// every layer on its own
+	try("walk", &out, func() {
+		var visit func(n error, depth int)
+		visit = func(n error, depth int) {
+			if n == nil || depth > 64 {
+				return
+			}
+			_ = n.Error()
+			_ = errors.GetSafeDetails(n)
+			_ = errors.GetTypeKey(n)
+			_ = errors.UnwrapOnce(n)
+			_ = errors.NotInDomain(n, errors.NoDomain)
+			_ = errors.HasInterface(n, (*interface{ ErrorHint() string })(nil))
+			if c := errors.UnwrapOnce(n); c != nil {
+				visit(c, depth+1)
+			}
+			if m, ok := n.(interface{ Unwrap() []error }); ok {
+				for _, c := range m.Unwrap() {
+					visit(c, depth+1)
+				}
+			}
+		}
+		visit(e, 0)
+	})
 	return out
 }
 
